@@ -1,0 +1,56 @@
+//go:build verif
+
+// Contracts for the node accessors (C04, C10, C05).  Comments only; see
+// contracts_verif.go for the conventions.
+
+package commonmark
+
+// ---------------------------------------------------------------------------
+// The part of the node invariant the accessors rely on: a node's span is a
+// valid range of the root block's Source (C02), and so are its children's.
+// ---------------------------------------------------------------------------
+
+//@ spec SpanOK(n *Inline, srclen int) bool = 0 <= n.span.Start && n.span.Start <= n.span.End && n.span.End <= srclen
+//@ spec ChildrenOK(n *Inline, srclen int) bool = forall k in [0, len(n.children)): (!isnil(n.children[k]) ==> SpanOK(n.children[k], srclen))
+
+//@ func (*Inline).Text
+//@   requires isnil(inline) || (SpanOK(inline, len(source)) && ChildrenOK(inline, len(source)))
+//@   modifies alloc
+//@   loop 0: invariant[sb] !isnil(sb) && fresh(sb) && (isnil(sb.buf) || fresh(sb.buf)) && framed()
+//@   loop 0: decreases inline.indent - i
+//@   loop 1: invariant[sb] !isnil(sb) && fresh(sb) && (isnil(sb.buf) || fresh(sb.buf)) && framed() && 0 <= i && n == len(inline.children)
+//@   loop 1: decreases n - i
+//@   serves C04, C10
+
+//@ func (*Inline).LinkDestination
+//@   requires !isnil(inline) ==> (forall k in [0, len(inline.children)): !isnil(inline.children[k]))
+//@   ensures[child] isnil(result) || (exists k in [0, len(inline.children)): result == inline.children[k] && result.kind == LinkDestinationKind)
+//@   loop 0: invariant[idx] !isnil(inline) && i < len(inline.children)
+//@   loop 0: decreases i + 1
+//@   serves C04, C10, C05
+
+//@ func (*Inline).LinkTitle
+//@   requires !isnil(inline) ==> (forall k in [0, len(inline.children)): !isnil(inline.children[k]))
+//@   ensures[child] isnil(result) || (exists k in [0, len(inline.children)): result == inline.children[k] && result.kind == LinkTitleKind)
+//@   loop 0: invariant[idx] !isnil(inline) && i < len(inline.children)
+//@   loop 0: decreases i + 1
+//@   serves C04, C10, C05
+
+//@ -- the label of a full reference link is its last child; its own normalised label is its ref field
+//@ func (*Inline).LinkReference
+//@   requires !isnil(inline)
+//@   requires (len(inline.children) > 0 && !isnil(inline.children[len(inline.children) - 1]) && inline.children[len(inline.children) - 1].kind == LinkLabelKind)
+//@       ==> !(inline.children[len(inline.children) - 1].kind == LinkKind || inline.children[len(inline.children) - 1].kind == ImageKind)
+//@   serves C04, C10
+
+//@ func (*Block).InfoString
+//@   requires (!isnil(b) && b.kind == FencedCodeBlockKind) ==> len(b.blockChildren) == 0
+//@   ensures[kind] isnil(result) || (result.kind == InfoStringKind && len(b.inlineChildren) > 0 && result == b.inlineChildren[0])
+//@   serves C04, C10, C05
+
+//@ func (*Block).ListItemNumber
+//@   requires !isnil(b)
+//@   requires (b.kind == ListItemKind && len(b.blockChildren) > 0 && !isnil(b.blockChildren[0]) && b.blockChildren[0].kind == ListMarkerKind)
+//@       ==> (0 <= b.blockChildren[0].span.Start && b.blockChildren[0].span.Start <= b.blockChildren[0].span.End && b.blockChildren[0].span.End <= len(source))
+//@   ensures[range] -1 <= result && result <= 999999999
+//@   serves C04, C10, C05
